@@ -396,7 +396,7 @@ func cmdRun(args []string) {
 			defer wg.Done()
 			env := map[string]string{"SIM_MODE": "search", "SIM_PROP": *prop, "SIM_TIER": *tier, "SIM_SEED": fmt.Sprint(seed),
 				"SIM_WORKER": fmt.Sprint(w), "SIM_WORKERS": fmt.Sprint(*workers), "SIM_RUNS": fmt.Sprint(runs), "SIM_WALL_S": fmt.Sprint(wall)}
-			r, err := worker(bin, scratch, env, time.Duration(wall+120)*time.Second, fmt.Sprintf("w%d", w))
+			r, err := worker(bin, scratch, env, time.Duration(wall+900)*time.Second, fmt.Sprintf("w%d", w))
 			results[w] = wres{r, err}
 		}(w)
 	}
@@ -500,7 +500,7 @@ func cmdRun(args []string) {
 	}
 	sort.Strings(order)
 	exit := 0
-	var knownLines, violLines []string
+	var knownLines, violLines, nonRepro []string
 	newViolations := 0
 	shrunk := 0
 	for _, k := range order {
@@ -578,8 +578,13 @@ func cmdRun(args []string) {
 			}
 		}
 		if !repro {
-			os.RemoveAll(scratch)
-			die(2, "NONDETERMINISM: violation %s (seed %d) did not reproduce in %d fresh processes", k, best.Seed, attempts)
+			// Not reproducible from its tapes in a fresh process: never reported as a violation. (Typical
+			// cause: the code under test keeps process-global state that leaks from one run into the
+			// next inside a worker process.) If other classes of this batch do reproduce they are
+			// reported; if none does, the batch ends as tool trouble (exit 2).
+			nonRepro = append(nonRepro, fmt.Sprintf("%s (seed %d)", k, best.Seed))
+			newViolations--
+			continue
 		}
 		if attempts > 1 {
 			rep["note"] = fmt.Sprintf("reproduced on attempt %d of the fresh-process replay: the behaviour depends on a source the simulator cannot seed (Go map iteration order)", attempts)
@@ -590,6 +595,16 @@ func cmdRun(args []string) {
 		writeJSON(path, rep)
 		violLines = append(violLines, fmt.Sprintf("VIOLATION property=%s replay=%s", *prop, path))
 		fmt.Printf("  violation class %s\n    %s\n", k, ci.v.Detail)
+	}
+	for _, nr := range nonRepro {
+		fmt.Printf("WARNING: not reproducible in %d fresh processes, not reported: %s\n", 4, nr)
+	}
+	if len(nonRepro) > 0 && len(violLines) == 0 {
+		os.RemoveAll(scratch)
+		die(2, "NONDETERMINISM: %d violation class(es) found by the search did not reproduce from their tapes in fresh processes and none did: %s", len(nonRepro), strings.Join(nonRepro, "; "))
+	}
+	if newViolations <= 0 && len(violLines) == 0 {
+		exit = 0
 	}
 	sort.Strings(knownLines)
 	for _, l := range dedupeStr(knownLines) {
